@@ -305,6 +305,20 @@ def tflow_snippets(cases: list) -> list:
             if not two:
                 continue
             st = [ASSIGN(x, _tval(t1, 3, ain)), ASSIGN(y, _tval(t2, 5, ain)), TUPLE([x, y], [V(y), V(x)]), WRITE(V(x)), WRITE(V(y))]
+        elif site == "tuple-reads-earlier-target":
+            if not two:
+                continue
+            # a, b = v2, a : the right-hand side is evaluated before any target is bound, so b gets a's OLD value and type
+            st = [ASSIGN(x, _tval(t1, 3, ain)), TUPLE([x, y], [_tval(t2, 5, ain), V(x)]), WRITE(V(y)), WRITE(V(x))]
+        elif site == "comprehension-shadows-name":
+            # the comprehension variable has the name of an outer variable: the outer one keeps its value and type
+            st = [ASSIGN(x, _tval(t1, 3, ain)), ASSIGN(f"tl{n}", COMP(x, I(3), BIN("+", V(x), I(1)))), ASSIGN(y, V(x)),
+                  WRITE(V(y)), WRITE(INDEX(V(f"tl{n}"), I(2)))]
+        elif site == "comprehension-shadows-parameter":
+            defs[f] = DEF(["k"], [ASSIGN("w", COMP("k", I(4), BIN("+", V("k"), I(1)))), WRITE(INDEX(V("w"), I(3))), RETURN(V("k"))])
+            st = [ASSIGN(y, CALL(f, _tval(t1, 3, ain))), WRITE(V(y))]
+        elif site == "query-result":
+            continue
         else:
             raise ValueError(site)
         sn = snip(f"tflow{n}", st, ain, "tflow:" + site, defs)
@@ -507,6 +521,32 @@ def fold_snippets() -> list:
                 s = snip(f"fold-{site}-{routing}-{v}", pre + st + post, ain, f"fold:{site}:{routing}", defs)
                 s["routing"], s["site"] = routing, site
                 out.append(s)
+    return out
+
+
+def scope_fold_snippets() -> list:
+    """Fold sites whose name is bound in more than one scope, or updated by augmented assignment inside a loop."""
+    out = []
+    # a helper parameter that has the name of a file-scope constant
+    out.append(snip("fold-param-shadows-str", [ASSIGN("banner", S("hello")), WRITE(CALL("pad", S("hi"))), WRITE(CALL("pad", S("a much longer one"))),
+                                                WRITE(CALL("len", V("banner")))], [], "fold:param-shadow",
+                    {"pad": DEF(["banner"], [RETURN(BIN("-", I(16), CALL("len", V("banner"))))])}))
+    out.append(snip("fold-param-shadows-int", [ASSIGN("nn", I(3)), EXPR(CALL("rep", I(2))), EXPR(CALL("rep", AREAD())), WRITE(V("nn"))], [4], "fold:param-shadow",
+                    {"rep": DEF(["nn"], [SLEEP(V("nn")), FOR("ri", V("nn"), [WRITE(V("ri"))])])}))
+    # augmented assignment inside a loop, then a name-based fold site in the same body / after the loop
+    out.append(snip("fold-aug-str-in-loop", [ASSIGN("bar", S("#")), FOR("bi", I(4), [AUG("bar", "+", S("#")), WRITE(CALL("len", V("bar")))])],
+                    [], "fold:aug-loop"))
+    out.append(snip("fold-aug-str-after-loop", [ASSIGN("bar2", S("#")), FOR("bi2", I(4), [AUG("bar2", "+", S("#"))]), WRITE(CALL("len", V("bar2")))],
+                    [], "fold:aug-loop"))
+    out.append(snip("fold-aug-int-in-loop", [ASSIGN("dl", I(1)), FOR("di", I(3), [AUG("dl", "+", I(2)), SLEEP(V("dl"))]), SLEEP(V("dl")),
+                                             FOR("dj", V("dl"), [WRITE(V("dj"))])], [], "fold:aug-loop"))
+    out.append(snip("fold-aug-str-in-while", [ASSIGN("ws", S("ab")), ASSIGN("wk", I(0)),
+                                              WHILE(CMP(V("wk"), ("<", I(3))), [AUG("wk", "+", I(1)), AUG("ws", "+", S("c")), WRITE(CALL("len", V("ws")))])],
+                    [], "fold:aug-loop"))
+    out.append(snip("fold-aug-in-branch", [ASSIGN("bs", S("ab")), IF([(CMP(AREAD(), (">", I(0))), [AUG("bs", "+", S("cd"))])]), WRITE(CALL("len", V("bs")))],
+                    [0], "fold:aug-loop"))
+    for s in out:
+        s["routing"], s["site"] = "scope", s["fam"]
     return out
 
 
